@@ -1084,7 +1084,13 @@ func (d *indexData) newMatchTree(q query.Q, opt matchTreeOpt) (matchTree, error)
 		checksum := queryMetaChecksum(s.Field, s.Value)
 		cacheKeyField := "Meta"
 		if cached, ok := d.docMatchTreeCache.Get(cacheKeyField, checksum); ok {
-			return cached, nil
+			// The cache shares the (expensive) predicate between searches. The
+			// iteration cursor is per-search state, so hand out a fresh node.
+			return &docMatchTree{
+				reason:    cached.reason,
+				numDocs:   cached.numDocs,
+				predicate: cached.predicate,
+			}, nil
 		}
 
 		reposWant := make([]bool, len(d.repoMetaData))
@@ -1107,7 +1113,11 @@ func (d *indexData) newMatchTree(q query.Q, opt matchTreeOpt) (matchTree, error)
 				return reposWant[repoIdx]
 			},
 		}
-		d.docMatchTreeCache.Add(cacheKeyField, checksum, mt)
+		d.docMatchTreeCache.Add(cacheKeyField, checksum, &docMatchTree{
+			reason:    mt.reason,
+			numDocs:   mt.numDocs,
+			predicate: mt.predicate,
+		})
 		return mt, nil
 
 	case *query.Substring:
